@@ -55,7 +55,7 @@ def querySections (V : List Nat) (E : EL) (r : Nat) : List (String × String) :=
   let dom := a.dom
   let ls := loopsOf V E R dom
   let fwd := E.filter (fun e => !dom e.2 e.1)
-  let fwdTab := mkTab (reachE V fwd) (univE V E)
+  let fwdTab := mkTab (reachE V fwd) (dedup (univE V E))
   [ ("reach", csv (sortN R)),
     ("unreach", csv (sortN (V.filter (fun v => v ∉ R)))),
     ("idom", ",".intercalate ((sortN R).filterMap (fun v => (idomOf R dom v).map (fun d => s!"{v}:{d}")))),
@@ -68,7 +68,7 @@ def querySections (V : List Nat) (E : EL) (r : Nat) : List (String × String) :=
     ("acyc", bstr (acyclicOf E R a.rs)) ]
 
 def globalSections (V : List Nat) (E : EL) : List (String × String) :=
-  let U := univE V E
+  let U := dedup (univE V E)
   let rsTab := mkTab (reachE V E) U
   let rs := fun s => tabGet rsTab (reachE V E) s
   [ ("tpreds", keyed (V.map (fun v => (v, dedup (tpredsOf V E rs v))))),
